@@ -43,6 +43,7 @@ MISSED_FIRST = {
  "C28-w2-2": "missed at first; the C28 bond-DB unit now runs the real combined security manager with SMP traffic and LL_ENC_REQ(0,0)",
  "C29-w2-2": "missed at first; C29 now demands the exact close reason where the cause is unambiguous and has valid channel map updates in its alphabet",
  "C31-w2-1": "ended with a harness NONDETERMINISM error at first (ASan reports a PC only once per process); the C31 signaling units now report every error",
+ "C30-w2-2": "harness did not build at first (the yielding stand-in for std::atomic_int lacked operator++ and the other read-modify-write members); completed, the TSan side pass got a no-progress horizon",
  "C39-w2-2": "missed at first; the C39 content reference now survives interleaved control point procedures that do not leave flash mode",
  "C10-w2-1": "missed at first; C10 gained servers with include declarations",
  "C10-w2-2": "missed at first; C10 gained a server with a duplicated characteristic UUID (documented: the first one is notified)",
